@@ -223,6 +223,19 @@ def worker(job):
     out_dtype = dtype
     if fn in ("tril", "triu") and impl.is_nullable(dtype):
         out_dtype = dtype[1:]
+    # pure data movement never alters its operands: shape, dtype and value of every argument after the call
+    if dtype != "struct":
+        from .. import progs
+        try:
+            args = [ndx.asarray(v.copy()) for v in vals]
+            nd_call(fn, args, p, ndx)
+            for k, (a, v) in enumerate(zip(args, vals)):
+                after = a.to_numpy()
+                if after is None or tuple(after.shape) != tuple(v.shape) or not progs.same_value(after, ndx.asarray(v).to_numpy()):
+                    rec["fail"].append(("eager", "argument-changed", f"operand {k}: shape {list(v.shape)} -> {None if after is None else list(after.shape)}"))
+                    break
+        except Exception:
+            pass        # a raising call is reported by the comparison below
     for mode in ("eager", "traced"):
         try:
             if dtype == "struct":
@@ -339,4 +352,4 @@ def run(ctx: common.Ctx):
     tgraph.run_layout(ctx, 400 if quick else 4000)
     # tril / triu and broadcast_arrays at graph level (Model/TGraphScatter; Props/C11Trilu.lean, C11Broadcast.lean)
     from .. import scattertie
-    scattertie.run(ctx, 80 if ctx.tier == "quick" else 1600, label="layout2", kinds=("trilu", "broadcast_arrays"))
+    scattertie.run(ctx, 80 if ctx.tier == "quick" else 800, label="layout2", kinds=("trilu", "broadcast_arrays"))
